@@ -13,17 +13,18 @@ META = {
         'saves and __deepcopy__ copies are exactly the instance attributes the '
         'package assigns on Array objects; (slots) Ranges.__slots__ equals the '
         'attributes its methods use and ExcelModel.__getstate__ keeps dsp; '
-        '(tokens) every identity sentinel (sh.Token / XlError instance) is a '
+        ' (tokens) every identity sentinel (sh.Token / XlError instance) is a '
         'module-level global, which is what schedula needs to restore identity '
         'on copy/pickle; (getattr) Token.__getattr__ cannot recurse on objects '
         'created without __init__; (global) dispatch-time code writes no '
         'module-level mutable object and never writes through a memoised '
-        '(shared) result; (emptied) calculate, __call__, compile, to_dict and '
+        ' (shared) result; (emptied) calculate, __call__, compile, to_dict and '
         'write - with every method they reach through self - read none of the '
         'attributes ExcelModel.__getstate__ replaces by empty containers, so '
         'they cannot behave differently on a copy; (restore) no __init__ / '
         '__setstate__ / __deepcopy__ binds a class-level or module-level '
-        'mutable container into an instance.'),
+        'mutable container into an instance.'
+        ' (tokencls) sentinel classes do not intercept construction (no __init__/__new__ between schedula.Token and the module that creates the instance); (hooks) every custom __getstate__/__deepcopy__ keeps what calculations read and deep-copies what it shares - a __deepcopy__ built on copy.copy must deep-copy every attribute.'),
     'not_decided': (
         'Equality of results of the copy for all inputs, and what dill/copy do '
         'inside schedula objects.'),
